@@ -55,6 +55,14 @@ RULE = ("lists of 1..8 features, start-ordered inside each seqid block, consecut
         "assignment, values appended to the lists under keys that update_attributes does not give, a key added, a key of "
         "update_attributes re-assigned; after every edit every other yielded feature, a deep snapshot of the caller's "
         "update_attributes and the inputs' attribute mappings are compared; "
+        "'several seqids' cases: GFF3 (75%) / GTF databases of 1..2 genes x 1..2 transcripts in which the exons of one "
+        "transcript lie on 2..3 seqids following A B A / A A B B A A / A B C A / random patterns over start-ordered intervals "
+        "(mostly gapped), so that start order differs from (seqid, start) order: the exons are taken in start order and a "
+        "change of seqid between start-neighbours makes no gap (chr1:100-200, chr2:300-400, chr1:500-600 -> nothing); "
+        "non-trivial = a transcript for which taking the exons seqid by seqid would give other features; "
+        "'empty values' cases: lists in which 1..2 keys (Note, Dbxref, tag, partial) are carried by most features with an EMPTY "
+        "value list on half of them - Feature objects ({key: []} / attribute text 'Note=' or a bare flag), GFF3 and GTF (key "
+        "\"\";) databases: the union is the other neighbour's values, empty when both are empty; "
         "non-trivial = at least one gap and at least one suppressed pair (touching / overlapping / seqid change) in the "
         "list or in one transcript ('alias' cases: at least two yielded features); distinct = distinct (records, options) tuples")
 REQUIRED = ["interfeatures calls", "gap features compared", "suppressed pairs: touching", "suppressed pairs: overlapping",
@@ -124,7 +132,17 @@ REQUIRED = ["interfeatures calls", "gap features compared", "suppressed pairs: t
             ("the caller's update_attributes dictionary compared (deep) after an in-place edit",
              "... holding several-valued lists under non-ID keys")] + \
            ["aliasing: later features compared at yield time after an earlier one was edited in place: merge_attributes %s, "
-            "update_attributes given" % m for m in ("on", "off")]
+            "update_attributes given" % m for m in ("on", "off")] + \
+           [t % w for w in ("introns", "splice sites") for t in (
+               "multi-seqid: transcripts compared whose exons lie on two or more seqids (%s)",
+               "multi-seqid: transcripts compared whose start order differs from (seqid, start) order (%s)",
+               "multi-seqid: transcripts compared with two exons of one seqid separated in start order by an exon on another (%s)",
+               "multi-seqid: transcripts compared with 2+ exons on each of two or more seqids (%s)",
+               "multi-seqid: transcripts compared that have no intron at all although exons of one seqid have room between them (%s)",
+               "multi-seqid: %s compared where grouping each transcript's exons per seqid first would give other features")] + \
+           ["empty values: unions compared of a key both neighbours carry, empty on %s%s" % (side, src)
+            for side in ("the downstream neighbour only", "the upstream neighbour only", "both neighbours")
+            for src in ("", " (features read from a gff3 database)", " (features read from a gtf database)")]
 REQUIRED_CLASSES = ["list/objects", "list/db gff3", "list/db gtf", "introns/gff3", "introns/gtf", "splice/gff3", "splice/gtf",
                     "list/objects equal attributes", "list/db gff3 equal attributes", "list/db gtf equal attributes",
                     "list/objects update_attributes", "list/db update_attributes",
@@ -135,7 +153,11 @@ REQUIRED_CLASSES = ["list/objects", "list/db gff3", "list/db gtf", "introns/gff3
                     "list/objects bare strings (plain dict)", "list/objects bare strings (item assignment on parsed text)",
                     "list/objects fed back from an earlier call", "introns/gff3 exons nested below a transcript's exons",
                     "splice/gff3 exons nested below a transcript's exons", "list/objects yielded features edited in place",
-                    "list/db gff3 yielded features edited in place"]
+                    "list/db gff3 yielded features edited in place",
+                    "introns/gff3 exons of one transcript on several seqids", "splice/gff3 exons of one transcript on several seqids",
+                    "introns/gtf exons of one transcript on several seqids", "splice/gtf exons of one transcript on several seqids",
+                    "list/objects empty values under a shared key", "list/db gff3 empty values under a shared key",
+                    "list/db gtf empty values under a shared key"]
 ASSUMPTIONS = [
     "'at least one base between them' = next.start - previous.end >= 2; lists are start-ordered inside a block of one seqid "
     "(the statement speaks of features given in order), exon starts are distinct inside a transcript",
@@ -145,7 +167,13 @@ ASSUMPTIONS = [
     "geometry, type, strand and the keys of update_attributes are compared; update_attributes never sets several ID values",
     "score, frame, source, bin and key order of the yielded features are not part of the statement and not compared; "
     "the order of the features yielded by create_introns / create_splice_sites is not compared (multiset)",
-    "GTF: all exons/CDS of a transcript share seqid and strand, and the inferred transcript has that strand (C03's domain)",
+    "GTF: all exons/CDS of a transcript share strand (and, outside the 'several seqids' class, seqid), and the inferred "
+    "transcript has that strand (C03's domain); the seqid of an inferred transcript / gene is not looked at",
+    "'the start-ordered exons of each transcript' = ALL its exons ordered by start alone, whatever seqid they lie on (exon "
+    "starts are distinct inside a transcript, also across seqids); 'none across a change of seqid' then applies to "
+    "start-neighbours: two exons of one seqid with an exon of another seqid between them in start order have no intron",
+    "an attribute key with an empty value list (Note=, a bare flag, GTF key \"\";, {key: []}) contributes no value to the union: "
+    "the union under a key both neighbours carry is the other neighbour's values, and [] when both are empty",
     "a transcript whose strand is neither '+' nor '-' ('.' or '?') gets the label 'splice_site' on both sides, whatever "
     "transcripts were visited before it in the same call",
     "derived features are stored with update(..., merge_strategy='create_unique') (GTF: gene / transcript inference off); "
@@ -424,7 +452,7 @@ def execute_list(ctx, case):
                 ctx.violation(case, {"why": "interfeatures: " + why, "index": i, "got": short(f), "expected": g})
                 return info
             count_attr_evidence(ctx, g, model_in, opts)
-            count_pair_evidence(ctx, g, real_attrs, opts, from_db=source != "objects")
+            count_pair_evidence(ctx, g, real_attrs, opts, from_db=source if source != "objects" else False)
             count_update_evidence(ctx, g, real_attrs, opts, from_db=source != "objects")
             if held is not None:
                 count_bare_evidence(ctx, g, held, recs, case.get("build"))
@@ -481,6 +509,14 @@ def count_pair_evidence(ctx, g, attrs, opts, from_db=False):
             ctx.mon("equal attribute dictionaries with repeated values: unions compared")
         if from_db and (unsorted_ or repeated):
             ctx.mon("equal attribute dictionaries with unsorted or repeated values: unions compared (features read from a database)")
+    upd_keys = set(opts.get("update_attributes") or ())
+    for k in a:
+        if k in b and k not in upd_keys and (not a[k] or not b[k]):
+            side = "both neighbours" if not a[k] and not b[k] else "the downstream neighbour only" if a[k] else "the upstream neighbour only"
+            ctx.mon("empty values: unions compared of a key both neighbours carry, empty on %s" % side)
+            if from_db:
+                ctx.mon("empty values: unions compared of a key both neighbours carry, empty on %s (features read from a %s database)"
+                        % (side, from_db if isinstance(from_db, str) else "GFF3 / GTF"))
     if not (opts.get("update_attributes") or {}).get("ID"):
         x, y = a.get("ID", []), b.get("ID", [])
         if len(x) == 1 and len(y) == 1 and x != y and M.is_number(x[0]) and M.is_number(y[0]) and float(x[0]) != float(y[0]):
@@ -972,6 +1008,8 @@ def execute_model(ctx, case):
             count_visit_evidence(ctx, call, out, txs, fmt, info)
             if case.get("nested"):
                 info["deep"] = count_nested_evidence(ctx, recs, opts, call, txs, expected)
+            if case.get("multiseq"):
+                info["multi"] = count_multiseq_evidence(ctx, opts, call, txs, expected)
     finally:
         close_db(db, dbfn)
     return info
@@ -1031,6 +1069,56 @@ def count_nested_evidence(ctx, recs, opts, call, txs, expected):
                                       for tid, _, exons in txs):
         ctx.mon("nested: the nested features themselves taken as transcripts (parent_featuretype mode), own exons compared")
     return ndeep
+
+
+def count_multiseq_evidence(ctx, opts, call, txs, expected):
+    """Evidence counters of the multi-seqid class (the comparison itself has been made): transcripts whose exons lie on two or
+    more seqids, whether start order and (seqid, start) order differ, and whether taking the exons seqid by seqid (instead of
+    in start order, as the statement says) would give other features.  Returns the number of transcripts for which it would."""
+    what = "introns" if call == "introns" else "splice sites"
+    n = 0
+    grouped = []
+    for tid, tstrand, exons in txs:
+        ex_model = [to_model(e) for e in exons]
+        ordered = M.start_ordered(ex_model)
+        seqids = [e["seqid"] for e in ordered]
+        by_seqid = sorted(ordered, key=lambda e: (e["seqid"], e["start"]))
+        if call == "introns":
+            alt, _ = M.gaps(by_seqid, new_featuretype=opts["new_featuretype"], merge_attributes=False)
+            own, _ = M.gaps(ordered, new_featuretype=opts["new_featuretype"], merge_attributes=False)
+        else:
+            alt, own = [], []
+            for lst, res in ((by_seqid, alt), (ordered, own)):
+                for g in M.gaps(lst, new_featuretype="intron", merge_attributes=False)[0]:
+                    res.extend({"seqid": g["seqid"], "start": a, "end": b, "strand": g["strand"],
+                                "featuretype": M.site_label(side, tstrand)}
+                               for side, (_, a, b, _) in zip(("left", "right"), M.site_pair(g)))
+        grouped.extend(alt)
+        if len(set(seqids)) < 2:
+            continue
+        ctx.mon("multi-seqid: transcripts compared whose exons lie on two or more seqids (%s)" % what)
+        if [id(e) for e in by_seqid] != [id(e) for e in ordered] and [id(e) for e in by_seqid[::-1]] != [id(e) for e in ordered]:
+            ctx.mon("multi-seqid: transcripts compared whose start order differs from (seqid, start) order (%s)" % what)
+        if any(seqids.count(s) >= 2 and any(x != s for x in seqids[seqids.index(s):len(seqids) - seqids[::-1].index(s)])
+               for s in set(seqids)):
+            ctx.mon("multi-seqid: transcripts compared with two exons of one seqid separated in start order by an exon on another (%s)" % what)
+        if sum(1 for s in set(seqids) if seqids.count(s) >= 2) >= 2:
+            ctx.mon("multi-seqid: transcripts compared with 2+ exons on each of two or more seqids (%s)" % what)
+        a = Counter(canon(g, False) for g in own)
+        b = Counter(canon(g, False) for g in alt)
+        if a != b:
+            n += 1
+            ctx.mon("multi-seqid: transcripts compared for which taking the exons seqid by seqid would give other %s" % what)
+            if not own:
+                ctx.mon("multi-seqid: transcripts compared that have no intron at all although exons of one seqid have room between them (%s)" % what)
+            elif b - a and a - b:
+                ctx.mon("multi-seqid: ... both gaps that would be invented and gaps that would be lost (%s)" % what)
+    if n:
+        a = Counter(canon(g, False) for g in expected)
+        b = Counter(canon(g, False) for g in grouped)
+        if a != b:
+            ctx.mon("multi-seqid: %s compared where grouping each transcript's exons per seqid first would give other features" % what)
+    return n
 
 
 def neither(strand):
@@ -1293,6 +1381,34 @@ def run(ctx):
         ctx.case((source, case["feats"], case["opts"], case["lazy"], case["edit_seed"]), info["gaps"] >= 2,
                  sample=case if len(feats) == 3 else None,
                  cls="list/%s yielded features edited in place" % ("objects" if source == "objects" else "db gff3"))
+    # transcripts whose exons lie on two or more seqids with interleaved starts (start order != (seqid, start) order)
+    for _ in range(ctx.budget(1000, 30000)):
+        fmt = rng.choice(["gff3", "gff3", "gff3", "gtf"])
+        call = rng.choice(["introns", "splice"])
+        recs = G.multiseq_model(rng, fmt)
+        case = {"kind": call, "fmt": fmt, "recs": recs, "opts": G.strand_order_options(rng, fmt, call), "multiseq": True,
+                "dbfile": rng.random() < 0.1}
+        info = execute(ctx, case)
+        ctx.case((call, fmt, case["recs"], case["opts"]), info.get("multi", 0) >= 1,
+                 sample=case if len(recs) <= 6 else None, cls="%s/%s exons of one transcript on several seqids" % (call, fmt))
+    # a key both neighbours carry whose value is EMPTY on one of them (Note= / bare flag / GTF tag "" / {key: []})
+    for k in range(ctx.budget(1200, 30000)):
+        source = ("objects", "objects", "gff3", "gtf")[k % 4]
+        feats = G.empty_values_list(rng, unique_ids=source != "objects")
+        if source == "gtf":
+            for r in feats:
+                r["attrs"] = [["gene_id", ["g"]], ["transcript_id", ["t"]]] + [kv for kv in r["attrs"]]
+        opts = G.list_options(rng)
+        opts["merge_attributes"] = rng.random() < 0.95
+        case = {"kind": "list", "source": source, "feats": feats, "opts": opts}
+        if source == "objects":
+            case["build"] = rng.choice(["dict", "string"])
+        else:
+            case["dbfile"] = rng.random() < 0.1
+        info = execute(ctx, case)
+        ctx.case((source, case.get("build"), case["feats"], case["opts"]), info["gaps"] >= 1,
+                 sample=case if len(feats) == 2 else None, cls="list/%s empty values under a shared key"
+                 % ("objects" if source == "objects" else "db " + source))
     ctx.mon("bins.bins contract evaluations", contracts.EVALS["bins.bins"])
 
 
@@ -1321,7 +1437,10 @@ MANIFEST = {
             "consumer edits every yielded feature in place (sets an ID, appends to its lists) while iterating lazily and after "
             "collecting, with update_attributes holding several-valued lists and merge_attributes on and off: every other yielded "
             "feature, a deep snapshot of the caller's update_attributes dictionary and the inputs stay what they were, and later "
-            "features are yielded as the model says. "
+            "features are yielded as the model says; transcripts whose exons lie on two or three seqids with interleaved "
+            "starts (GFF3 and GTF): the exons are taken in start order and no intron / site is made across a change of seqid, "
+            "counted separately where taking the exons seqid by seqid would give other features; keys both neighbours carry "
+            "whose value list is empty on one or both of them (objects, GFF3 'Note=' / bare flags, GTF key \"\";). "
             "The inputs' printed form, an "
             "independent sqlite3 dump of the database and the SQL trace are compared before and after each call. "
             "Held = no executed case disagreed.",
